@@ -572,81 +572,154 @@ def check_buffer_discipline(run):
 
 
 def check_write_string(run):
+    """R06.5: the chunked copy loop appends exactly the bytes str[0..size) — decided by an affine analysis of one loop
+    round and of the tail, so it does not depend on how the round spells or orders its bookkeeping."""
+    from .. import affine
+    from ..affine import Lin
     facts = run.facts
     f = facts.fn("CDNS::CdnsEncoder::write_string", rule="R06.5")
     body = ir.stmts(f["body"])
-    env = Env(f["body"])
     loops = [s for s in body if s.get("k") == "While"]
     if len(loops) != 1:
         run.ob("R06.5", "write_string:shape", None, f, f["line"], "expected one while loop")
         return
     lp = loops[0]
+    cu = unwrap(lp["cond"])
+    left_e = None
+    if isinstance(cu, dict) and cu.get("k") == "Bin" and cu.get("op") in ("<", "<=", ">", ">="):
+        l_is = is_member(cu["lhs"], "m_avail")
+        r_is = is_member(cu["rhs"], "m_avail")
+        if l_is and cu["op"] in ("<", "<="):
+            left_e = cu["rhs"]
+        elif r_is and cu["op"] in (">", ">="):
+            left_e = cu["lhs"]
+    ok = left_e is not None
     c = cond(lp["cond"], None)
-    # m_avail < left  (or <=)
-    ok = c[0] == "cmp" and c[1] in ("<", "<=") and c[2] == "this.m_avail" and c[3].startswith("l:")
-    left = c[3] if ok else None
     run.ob("R06.5", "write_string:loop-condition", ok, f, lp["l"],
            "loops while the remainder does not fit (%s)" % show_f(c) if ok else "loop condition %s is not `m_avail < remaining`" % show_f(c))
     if not ok:
         return
-    seq = []
-    src = None
-    counters = []
-    for s in ir.stmts(lp["body"]):
-        u = unwrap(s)
-        if u.get("k") == "Call" and callee_name(u) == "memcpy":
-            a = u["args"]
-            src = path(ir.unwrap_all_casts(a[1]))
-            seq.append(("memcpy", is_member(ir.unwrap_all_casts(a[0]), "m_p") and is_member(a[2], "m_avail")))
-        elif u.get("k") == "Bin" and u.get("op") == "-=":
-            seq.append(("left-=", ir.path_str(path(u["lhs"]) or ()) == left and is_member(u["rhs"], "m_avail")))
-        elif u.get("k") == "Bin" and u.get("op") == "+=" and (src is None or path(u["lhs"]) == src or (unwrap(u["lhs"]) or {}).get("t", "").endswith("*")):
-            seq.append(("src+=", path(u["lhs"]) == src and is_member(u["rhs"], "m_avail")))
-        elif u.get("k") == "MCall" and callee_name(u) == "update_buffer":
-            seq.append(("update", is_member(u["args"][0], "m_avail")))
-        elif u.get("k") == "MCall" and callee_name(u) == "flush_buffer":
-            seq.append(("flush", True))
-        elif u.get("k") == "Bin" and u.get("op") == "+=" and path(u["lhs"]) and path(u["lhs"])[0].startswith("l:") and \
-                ir.path_str(path(u["lhs"])) != left and path(u["lhs"]) != src and is_member(u["rhs"], "m_avail"):
-            # a byte counter `count += m_avail`: correct only while m_avail still holds the size of this round's copy
-            stale = "update" in [x[0] for x in seq]
-            counters.append((u, not stale))
+    AV, MP = "this.m_avail", "this.m_p"
+
+    def interp(stmts_, env):
+        events = []
+
+        def on_call(u, env):
+            nm = callee_name(u)
+            if u.get("k") == "Return":
+                events.append(("return", affine.ev(u["e"], env) if u.get("e") is not None else None, None, None, u))
+                return True
+            if nm == "memcpy" and len(u.get("args", [])) == 3:
+                a = u["args"]
+                events.append(("memcpy", affine.ev(a[0], env), affine.ev(a[1], env), affine.ev(a[2], env), u))
+                return True
+            if nm == "update_buffer" and (u.get("callee") or {}).get("cls") == ENC:
+                n = affine.ev(u["args"][0], env)
+                events.append(("update", n, None, None, u))
+                env[MP] = affine.ev({"k": "Member", "field": True, "n": "m_p", "base": {"k": "This"}}, env) + n
+                env[AV] = affine.ev({"k": "Member", "field": True, "n": "m_avail", "base": {"k": "This"}}, env) - n
+                return True
+            if nm == "flush_buffer" and (u.get("callee") or {}).get("cls") == ENC:
+                events.append(("flush", None, None, None, u))
+                env[MP] = Lin.sym("buffer-start")
+                env[AV] = Lin.sym("buffer-capacity")
+                return True
+            return False
+        affine.run(stmts_, env, on_call)
+        return events
+
+    try:
+        i_lp = body.index(lp)
+        # ---- one round
+        env = {}
+        ev_round = interp(ir.stmts(lp["body"]), env)
+        A, P = Lin.sym(AV), Lin.sym(MP)
+        cps = [e for e in ev_round if e[0] == "memcpy"]
+        ups = [e for e in ev_round if e[0] == "update"]
+        fls = [e for e in ev_round if e[0] == "flush"]
+        names = [e[0] for e in ev_round]
+        why = []
+        src_e = None
+        if len(cps) != 1 or len(ups) != 1 or len(fls) != 1 or names != ["memcpy", "update", "flush"]:
+            why.append("a round performs %s; expected one memcpy, then update_buffer, then flush_buffer" % names)
         else:
-            seq.append(("other:%s" % show(u), False))
-    for u_, okc in counters:
-        run.ob("R06.5", "write_string:round-counter", okc, f, u_.get("l", 0),
-               "the round's byte count is taken before the buffer bookkeeping changes m_avail" if okc else
-               "`%s` runs after update_buffer(m_avail) has already set m_avail to 0: the bytes copied in every round that fills the buffer "
-               "are not counted, so the string's reported size is too small whenever it crosses a buffer boundary" % show(u_))
-    names = [x[0] for x in seq]
-    good_orders = (["memcpy", "left-=", "src+=", "update", "flush"], ["memcpy", "src+=", "left-=", "update", "flush"])
-    ok = names in good_orders and all(x[1] for x in seq)
-    run.ob("R06.5", "write_string:round", ok, f, lp["l"],
-           "each round copies m_avail bytes, advances source and remainder by m_avail, then updates and flushes" if ok else
-           "loop body is %s; expected memcpy(m_p,src,m_avail); remaining -= m_avail; src += m_avail; update_buffer(m_avail); flush_buffer()" % seq)
-    after = body[body.index(lp) + 1:]
-    tail = []
-    for s in after:
-        u = unwrap(s)
-        if u.get("k") == "Call" and callee_name(u) == "memcpy":
-            a = u["args"]
-            tail.append(("memcpy", is_member(ir.unwrap_all_casts(a[0]), "m_p") and path(ir.unwrap_all_casts(a[1])) == src and ir.path_str(path(a[2]) or ()) == left))
-        elif u.get("k") == "MCall" and callee_name(u) == "update_buffer":
-            tail.append(("update", ir.path_str(path(u["args"][0]) or ()) == left))
-        elif u.get("k") == "Bin" and u.get("op") == "+=" and path(u["lhs"]) and path(u["lhs"])[0].startswith("l:") and ir.path_str(path(u["rhs"]) or ()) == left:
-            continue      # byte counter += remaining
-        elif u.get("k") == "Return":
-            continue
+            src_e = cps[0][4]["args"][1]
+            src0 = affine.ev(src_e, {})
+            left0 = affine.ev(left_e, {})
+            if cps[0][1] != P:
+                why.append("memcpy writes to %r, not to the cursor m_p" % cps[0][1])
+            if cps[0][2] != src0:
+                why.append("memcpy reads from %r: the source was moved before this round's copy" % cps[0][2])
+            if cps[0][3] != A:
+                why.append("memcpy copies %r bytes; the free space at the start of the round is m_avail" % cps[0][3])
+            if ups[0][1] != A:
+                why.append("update_buffer(%r) does not match the %r bytes copied" % (ups[0][1], cps[0][3]))
+            if affine.ev(src_e, dict(env)) != src0 + A:
+                why.append("after a round the source is %r; it must have advanced by the bytes copied (m_avail at round start)" % affine.ev(src_e, dict(env)))
+            if affine.ev(left_e, dict(env)) != left0 - A:
+                why.append("after a round the remainder is %r; it must have shrunk by the bytes copied" % affine.ev(left_e, dict(env)))
+        run.ob("R06.5", "write_string:round", not why, f, lp["l"],
+               "each round copies m_avail bytes to the cursor, advances source and remainder by that amount, updates and flushes" if not why else
+               "; ".join(why))
+        # byte counters: any other local that changes in a round must grow by exactly the bytes copied
+        skip = set()
+        for e_ in (src_e, left_e):
+            if e_ is not None:
+                for x in ir.walk(e_):
+                    kx = affine.key_of(x)
+                    if kx:
+                        skip.add(kx)
+        counters = {}
+        declared = set("l:%s#%s" % (v.get("n"), v.get("id")) for n_ in ir.walk(lp["body"]) if n_.get("k") == "Decl" for v in n_.get("vars", []))
+        for key in sorted(ir.written_locals(lp["body"]) | set(k_ for k_ in env if k_.startswith("p:") and env[k_] != Lin.sym(k_))):
+            if key in skip or key in declared:
+                continue
+            counters[key] = env.get(key, Lin.sym(key))
+        for key, val in sorted(counters.items()):
+            okc = val == Lin.sym(key) + A
+            run.ob("R06.5", "write_string:round-counter", okc, f, lp["l"],
+                   "the round's byte count %s grows by the bytes copied" % key.split("#")[0][2:] if okc else
+                   "`%s` becomes %r in a round that copies m_avail bytes (m_avail is already 0 after update_buffer(m_avail)): the bytes of "
+                   "every round that fills the buffer are not counted, so the reported size is too small whenever the string crosses a "
+                   "buffer boundary" % (key.split("#")[0][2:], val))
+        # ---- tail
+        env_t = {}
+        ev_tail = interp(body[i_lp + 1:], env_t)
+        names_t = [e[0] for e in ev_tail if e[0] != "return"]
+        why = []
+        if names_t != ["memcpy", "update"]:
+            why.append("after the loop expected memcpy(m_p, src, remaining); update_buffer(remaining) (found %s)" % names_t)
         else:
-            tail.append(("other", False))
-    ok = [t[0] for t in tail] == ["memcpy", "update"] and all(t[1] for t in tail)
-    run.ob("R06.5", "write_string:tail", ok, f, f["line"],
-           "final copy of the remainder (<= m_avail by the loop exit condition) and matching update" if ok else
-           "after the loop expected memcpy(m_p, src, remaining); update_buffer(remaining) (found %s)" % tail)
-    # remaining initialised from the size parameter, src from the pointer parameter
-    d_left = env.defs.get(left)
-    ok = d_left is not None and path(d_left) == ("p:%s" % f["params"][1]["n"],)
-    run.ob("R06.5", "write_string:init", ok, f, f["line"], "remaining starts at the size argument")
+            cp, up = [e for e in ev_tail if e[0] == "memcpy"][0], [e for e in ev_tail if e[0] == "update"][0]
+            left0 = affine.ev(left_e, {})
+            if cp[1] != P:
+                why.append("the final memcpy writes to %r, not to m_p" % cp[1])
+            if src_e is not None and cp[2] != affine.ev(src_e, {}):
+                why.append("the final memcpy reads from %r, not from where the loop left the source" % cp[2])
+            if cp[3] != left0:
+                why.append("the final memcpy copies %r bytes, the remainder is %r" % (cp[3], left0))
+            if up[1] != left0:
+                why.append("update_buffer(%r) after the final copy of %r bytes" % (up[1], left0))
+            for key in counters:
+                if env_t.get(key, Lin.sym(key)) != Lin.sym(key) + left0:
+                    why.append("counter %s grows by %r in the tail, the tail copies %r" % (key.split("#")[0][2:], env_t.get(key, Lin.sym(key)) - Lin.sym(key), left0))
+        run.ob("R06.5", "write_string:tail", not why, f, f["line"],
+               "final copy of the remainder (<= m_avail by the loop exit condition) and matching update" if not why else "; ".join(why))
+        # ---- initial values
+        env_p = {}
+        interp(body[:i_lp], env_p)
+        size_p, str_p = "p:%s" % f["params"][1]["n"], "p:%s" % f["params"][0]["n"]
+        why = []
+        if affine.ev(left_e, dict(env_p)) != Lin.sym(size_p):
+            why.append("the remainder starts at %r, not at the size argument" % affine.ev(left_e, dict(env_p)))
+        if src_e is not None and affine.ev(src_e, dict(env_p)) != Lin.sym(str_p):
+            why.append("the source starts at %r, not at the string argument" % affine.ev(src_e, dict(env_p)))
+        for key in counters:
+            if env_p.get(key) != Lin(0):
+                why.append("counter %s does not start at 0" % key.split("#")[0][2:])
+        run.ob("R06.5", "write_string:init", not why, f, f["line"], "remaining starts at the size argument, the source at the string argument" if not why else "; ".join(why))
+    except affine.NotAffine as ex:
+        run.ob("R06.5", "write_string:shape", None, f, lp["l"], "the copy loop is not straight-line affine code (%s)" % ex)
     run.floor("R06.5", 4, "write_string obligations")
 
 
